@@ -178,10 +178,13 @@ func Fix() *Fixture {
 			mk("n1", params.RoleSenator, 4, Unit(6, 1), params.ValidatorOffline, false),
 			// s2, s3: in genesis only under ParamCfg.ExtraChamber
 			mk("s2", params.RoleSenator, 8, Unit(7, 13), params.ValidatorOnline, false),
-			mk("s3", params.RoleSenator, 9, Unit(9, 5), params.ValidatorOnline, false),
+			// s3 ties with s2 in stake, token AND coinbase (one operator, one reward address): their order in the
+			// validator table - which signer indexes of evidences resolve through - rests on the main address alone
+			mk("s3", params.RoleSenator, 9, Unit(7, 13), params.ValidatorOnline, false),
 			// z1: a house validator below one stake unit (MinSelfStakes of the house role is 0): Token > 0, Stake == 0
 			mk("z1", params.RoleHouse, 7, Unit(0, 500000000000000000), params.ValidatorOffline, false),
 		}
+		f.Val("s3").Coinbase = f.Val("s2").Coinbase
 		f.D1, f.D2, f.P = mkAcc("D1", 0x21), mkAcc("D2", 0x22), mkAcc("P", 0x23)
 		f.KStore = common.HexToAddress("0xc0de000000000000000000000000000000000001")
 		f.KRevert = common.HexToAddress("0xc0de000000000000000000000000000000000002")
